@@ -9,7 +9,7 @@ from urllib.parse import urljoin, urlparse
 from urllib.request import url2pathname
 
 from extract import fetch_sites, url_tables
-from harness import c20_bg, c20_doc, c20_paint, c20_svg, docs
+from harness import c20_bg, c20_doc, c20_paint, c20_source, c20_svg, docs
 from harness import c20_res as R
 from harness.c20_res import Spec, enc
 from vlib import sx
@@ -218,7 +218,7 @@ class C20(PropCheck):
     id = 'C20'
     extractors = (fetch_sites.generate, url_tables.generate)
     modules = ('WpModel.Props.C20', 'WpModel.Props.C20Url', 'WpModel.Props.C20Trace', 'WpModel.Props.C20Absent', 'WpModel.Props.C20Bg',
-               'WpModel.Props.C20Svg', 'WpModel.Props.C20Paint', 'WpModel.Props.C20Tables',
+               'WpModel.Props.C20Svg', 'WpModel.Props.C20Paint', 'WpModel.Props.C20Tables', 'WpModel.Props.C20Once', 'WpModel.Props.C20Source',
                'WpModel.Witness.C20')
     trusted_base = (
         'modelled, not verified: urls.fetch, images.get_image_from_uri / RasterImage.__init__ (data source), '
@@ -226,7 +226,8 @@ class C20(PropCheck):
         'fonts.add_font_face src loop, pdf.anchors.write_pdf_attachment / add_annotations (Model/Resources.lean), '
         'layout.background.layout_box_backgrounds (image list and per-layer zip), document.DiskCache under get_image_from_uri '
         '(Model/ResourcesBg.lean), images.SVGImage.draw with its _drawing flag + svg.images.image at any depth '
-        '(Model/ResourcesSvg.lean)',
+        '(Model/ResourcesSvg.lean), weasyprint._select_source with urls.ensure_url, all branches (Model/ResourcesSource.lean; '
+        'path2url of a name and the outcome of open() are parameters of the model)',
         'verdicts of third-party parsers on a byte string (ElementTree, Pillow open / PNG save, fontTools, fontconfig) are '
         'parameters of the model, obtained by the harness from those libraries directly',
         'which files / sockets the process opens is runtime behaviour: observed with sys.addaudithook on generated documents, '
@@ -265,6 +266,7 @@ class C20(PropCheck):
         c20_bg.section(run)
         c20_svg.section(run)
         c20_paint.section(run)
+        c20_source.section(run)
         c20_doc.section(run)
         self.sec_traces(run)
         self.branch_histogram(run, store)
@@ -902,6 +904,8 @@ class C20(PropCheck):
             return c20_svg.judge(d)
         if sec == 'box-paint':
             return c20_paint.judge(meta)
+        if sec == 'select-source':
+            return c20_source.judge(d)
         if sec == 'html-handlers':
             expected_failed = {'img': [f'[alt={enc(meta["alt"])}]' if meta['alt'] else '[]'], 'embed': ['[]'],
                                'object': ['[fallback]']}[meta['which']]
